@@ -446,8 +446,11 @@ func init() {
 			data := cfRender(&c)
 			// valid: the unfaulted file, with or (text formats) without the final newline
 			valid := c.Fault.Kind == "none"
+			if strings.HasPrefix(c.Var, "noprops") {
+				valid = false // an element without properties: outcome not prescribed
+			}
 			if nl := c.NLines; c.Fault.Kind == "cutl" && c.Fault.K == nl && nl > 0 {
-				valid = c.Fault.J == 1 || !c.File.Lines[nl-1].Bin
+				valid = (c.Fault.J == 1 || !c.File.Lines[nl-1].Bin) && !strings.HasPrefix(c.Var, "noprops")
 			}
 			for _, d := range cfDecoders(c.Fmt) {
 				if c.Var == "biglist" || strings.HasPrefix(c.Var, "biglist-") {
